@@ -15,6 +15,8 @@ enum Row {
     Plain(bool),  // re-use enabled?
     AfterSame,    // same label sent just before, re-use enabled: substitution expected to be possible
     AfterSameOff, // same label sent just before, re-use disabled
+    /// another label was sent, then an encap_ext / encap call with THIS label failed (nothing on the wire)
+    AfterOtherThenFailed,
 }
 
 struct Case<'a> {
@@ -52,6 +54,20 @@ fn run_case(rep: &Report, acc: &mut Acc, c: &Case) {
                 enc.disable_re_use_label();
                 steps.push("disable_re_use_label".into());
             }
+        }
+        Row::AfterOtherThenFailed => {
+            let other = if c.l == L6B { L6A } else { L6B };
+            let mut scratch = [0u8; 32];
+            let o = do_encap(&mut enc, &[0x42], 0, 0x0800, other, &mut scratch);
+            let n = o.len().unwrap_or(0);
+            let d = do_decap(&mut rx, &scratch[..n]);
+            if let DecapOut::Completed { buf, .. } = d {
+                let _ = rx.provision_storage(buf.into_boxed_slice());
+            }
+            let mut tiny = [0u8; 3];
+            let f1 = do_encap_ext(&mut enc, &[0x43], 0, 0x0800, c.l, &mut tiny, &[(0x0101, vec![])]);
+            let f2 = do_encap(&mut enc, &[0x43], 0, 0x0800, c.l, &mut tiny);
+            steps.push(format!("encap(label {}) -> {:?}; decap; encap_ext(label {}, 3-byte buffer) -> {:?}; encap(label {}, 3-byte buffer) -> {:?}", other.short(), o, c.l.short(), f1, c.l.short(), f2));
         }
     }
     let mut buf = vec![0xA5u8; c.b];
@@ -138,9 +154,9 @@ fn run_case(rep: &Report, acc: &mut Acc, c: &Case) {
 
 pub fn run(tier: Tier) -> i32 {
     let rep = Report::new("C01", tier);
-    rep.set_rule("lattice: label kind x row (re-use on/off, after the same label with re-use on/off) x PDU length (every length 0..=4100) x buffer length relative to the exact packet size and beyond 4097 x protocol type x storage size >= PDU x content pattern, all contents for lengths 0..=2 (0..=1 in quick); each cell = real encap + real decap of exactly the reported bytes; distinct = (status, label kind, row, regime)");
+    rep.set_rule("lattice: label kind x row (re-use on/off, after the same label with re-use on/off, after another label followed by failed encap_ext/encap calls with this label) x PDU length (every length 0..=4100) x buffer length relative to the exact packet size and beyond 4097 x protocol type x storage size >= PDU x content pattern, all contents for lengths 0..=2 (0..=1 in quick); each cell = real encap + real decap of exactly the reported bytes; distinct = (status, label kind, row, regime)");
     rep.assume("payload contents beyond 2 bytes are represented by four patterns (position tag, zeros, ones, second tag)");
-    let labels = [L6A, L3A, Lbl::Bcast, L6B, L3B];
+    let labels = [L6A, L3A, Lbl::Bcast, L6B, L3B, L3Z];
     let ps: Vec<usize> = (0..=4100).collect();
     let pts = [0x0600u16, 0x0800, 0x86DD, 0xFFFF];
     let cells: Vec<(usize, Lbl)> = ps.iter().flat_map(|&p| labels.into_iter().map(move |l| (p, l))).collect();
@@ -150,7 +166,7 @@ pub fn run(tier: Tier) -> i32 {
             return;
         }
         let mut acc = Acc::default();
-        let rows: Vec<Row> = if l.is_addr() { vec![Row::Plain(true), Row::Plain(false), Row::AfterSame, Row::AfterSameOff] } else { vec![Row::Plain(true), Row::Plain(false)] };
+        let rows: Vec<Row> = if l.is_addr() { vec![Row::Plain(true), Row::Plain(false), Row::AfterSame, Row::AfterSameOff, Row::AfterOtherThenFailed] } else { vec![Row::Plain(true), Row::Plain(false)] };
         for (ri, &row) in rows.iter().enumerate() {
             for lw in [l.wire_len(), 0] {
                 let size = 4 + lw + p;
